@@ -283,13 +283,6 @@ func runPlan(res *core.Result, r *rand.Rand, lp *linkPair, dir wire.Dir, p plan,
 		defer lp.w.SetReadChunk(dir, 0)
 		faultDone = true
 	}
-	if p.wrap {
-		// the sender's link-layer regular counter is just before the 32-bit wrap: the key rolls over during this run
-		if enc := peering.VerifLinkEncryption(link); enc != nil {
-			h := &state.EncryptionSessionTestHelper{EncryptionSession: enc}
-			h.ReglSetOut(0xFFFFFFFF - uint32(8+r.IntN(6)))
-		}
-	}
 
 	var sent []*sentFrame
 	bySig := map[string]*sentFrame{}
@@ -320,6 +313,15 @@ func runPlan(res *core.Result, r *rand.Rand, lp *linkPair, dir wire.Dir, p plan,
 		return true
 	}
 	for k := 0; k < n; k++ {
+		if p.wrap && k == 8 {
+			// the first frames of this (fresh) link carry small sequence numbers; now the sender's link-layer regular
+			// counter jumps to just before the 32-bit wrap, so the key rolls over during this run
+			waitSent(8)
+			if enc := peering.VerifLinkEncryption(link); enc != nil {
+				h := &state.EncryptionSessionTestHelper{EncryptionSession: enc}
+				h.ReglSetOut(0xFFFFFFFF - uint32(8+r.IntN(6)))
+			}
+		}
 		if !send(k, sizes[r.IntN(len(sizes))]) {
 			return false
 		}
@@ -527,7 +529,11 @@ func genPlans(r *rand.Rand, quick bool) []plan {
 		ps = append(ps, plan{kind: "segmented", distance: n, field: "stream"})
 	}
 	// replays and duplicates across a key rollover of the link session
-	ps = append(ps, plan{kind: "replay", at: 2, distance: 40, field: "whole-frame", wrap: true}, plan{kind: "duplicate", at: 1, distance: 30, field: "whole-frame", wrap: true},
+	// (an old frame replayed while the receiver is in the rollover zone makes it roll its key early; genuine frames
+	// are then lost until the sender wraps, too - a bounded loss: these plans are judged like desynchronising ones)
+	ps = append(ps, plan{kind: "replay", at: 0, distance: 12, field: "whole-frame", wrap: true, desync: true}, plan{kind: "replay", at: 3, distance: 9, field: "whole-frame", wrap: true, desync: true},
+		plan{kind: "replay", at: 5, distance: 20, field: "whole-frame", wrap: true, desync: true},
+		plan{kind: "replay", at: 2, distance: 40, field: "whole-frame", wrap: true}, plan{kind: "duplicate", at: 1, distance: 30, field: "whole-frame", wrap: true},
 		plan{kind: "none", field: "none", wrap: true})
 	ps = append(ps, plan{kind: "reflect", at: 5, field: "whole-frame"}, plan{kind: "reflect", at: 11, field: "whole-frame"})
 	for _, d := range []int{2, 3, 62, 63, 64, 65, 66, 128} {
@@ -576,6 +582,11 @@ func run(c *core.Ctx) {
 			for _, dir := range []wire.Dir{wire.AtoB, wire.BtoA} {
 				if dir == wire.BtoA && i%3 != 0 && c.Tier == core.Quick {
 					continue
+				}
+				if p.wrap && lp != nil {
+					lp.close() // wrap plans start on a fresh link (small sequence numbers first)
+					lp = nil
+					time.Sleep(4 * time.Millisecond)
 				}
 				if lp == nil {
 					var err error
